@@ -849,3 +849,52 @@ def reach_conditions(fi: "FuncInfo", wanted, classify):
     return [(n, (next(iter(c)) if len(c) == 1 else "?")) for n, c in out.values()]
 
 
+
+
+# ----------------------------------------------------------------------------- dispatch by method reference
+
+
+def method_reference_polarity(fi: "FuncInfo", names, classify):
+    """Under which polarity of a classified two-way test is each of the methods ``names`` referenced (called directly, or
+    selected as a bound-method value by a conditional expression) in ``fi``: {name: 'T' | 'F' | '?'}; None if some name is
+    not referenced at all.  Understands if/else, `if C: ...; return` followed by the other case, and
+    `a if C else b`."""
+    refs = {nm: [n for n in walk_no_nested(fi.node) if isinstance(n, ast.Attribute) and n.attr == nm and isinstance(n.value, ast.Name)] for nm in names}
+    if not all(refs.values()):
+        return None
+    out = {}
+
+    def flip(p):
+        return {"T": "F", "F": "T"}.get(p, "?")
+
+    def walk(stmts, cond):
+        for i, st in enumerate(stmts):
+            if isinstance(st, ast.If):
+                p = classify(st.test)
+                walk(st.body, p if p and cond is None else (cond if p is None else "?"))
+                walk(st.orelse, flip(p) if p and cond is None else (cond if p is None else "?"))
+                ends = bool(st.body) and isinstance(st.body[-1], (ast.Return, ast.Raise, ast.Continue, ast.Break))
+                if p and ends and not st.orelse and cond is None:
+                    walk(stmts[i + 1:], flip(p))
+                    return
+                continue
+            handled = set()
+            for n in ast.walk(st):
+                if isinstance(n, ast.IfExp):
+                    p = classify(n.test)
+                    for nm in names:
+                        if any(isinstance(x, ast.Attribute) and x.attr == nm for x in ast.walk(n.body)):
+                            out.setdefault(nm, set()).add(p if p and cond is None else "?")
+                        if any(isinstance(x, ast.Attribute) and x.attr == nm for x in ast.walk(n.orelse)):
+                            out.setdefault(nm, set()).add(flip(p) if p and cond is None else "?")
+                    handled |= {id(x) for x in ast.walk(n)}
+            for n in ast.walk(st):
+                if isinstance(n, ast.Attribute) and n.attr in names and id(n) not in handled:
+                    out.setdefault(n.attr, set()).add(cond if cond else "?")
+
+    walk(fi.body, None)
+    res = {}
+    for nm in names:
+        v = out.get(nm, {"?"})
+        res[nm] = next(iter(v)) if len(v) == 1 else "?"
+    return res
